@@ -32,7 +32,8 @@ use dicom_encoding::transfer_syntax::TransferSyntaxIndex;
 use dicom_encoding::TransferSyntax;
 use dicom_object::mem::InMemElement;
 use dicom_object::{FileMetaTableBuilder, InMemDicomObject};
-use dicom_parser::dataset::write::{DataSetWriterOptions, ExplicitLengthSqItemStrategy};
+use dicom_parser::dataset::write::{DataSetWriter, DataSetWriterOptions, ExplicitLengthSqItemStrategy};
+use dicom_parser::dataset::DataToken;
 use dicom_parser::stateful::encode::StatefulEncoder;
 use dicom_transfer_syntax_registry::TransferSyntaxRegistry;
 use serde_json::{json, Map, Value};
@@ -1135,6 +1136,115 @@ fn run_files(a: &std::collections::HashMap<String, String>) {
     rep.print();
 }
 
+// ------------------------------------------------------------------ token replay (DataSetWriter.tla)
+
+fn len4(v: &Value) -> Length {
+    let b = j_bytes(v);
+    Length(u32::from_be_bytes([b[0], b[1], b[2], b[3]]))
+}
+
+/// abstract tokens of DataSetWriter.tla -> DataToken
+fn build_tokens(toks: &Value) -> Vec<DataToken> {
+    let a = j_arr(toks);
+    let mut out = Vec::new();
+    let mut last_vr = VR::UN;
+    for (i, t) in a.iter().enumerate() {
+        match j_str(&t["t"]) {
+            "SeqStart" => out.push(DataToken::SequenceStart { tag: tag_of(&t["tag"]), len: len4(&t["len"]) }),
+            "ItemStart" => out.push(DataToken::ItemStart { len: len4(&t["len"]) }),
+            "ItemEnd" => out.push(DataToken::ItemEnd),
+            "SeqEnd" => out.push(DataToken::SequenceEnd),
+            "PixStart" => out.push(DataToken::PixelSequenceStart),
+            "Header" => {
+                let vr = VR::from_str(j_str(&t["vr"])).unwrap();
+                last_vr = vr;
+                // the header token carries the in-memory value length, as DataElement::new computes it
+                let pv = build_value(vr, &items_of(&a[i + 1]["v"]), false);
+                out.push(DataToken::ElementHeader(dicom_core::DataElementHeader::new(tag_of(&t["tag"]), vr, pv.length())));
+            }
+            "Value" => out.push(DataToken::PrimitiveValue(build_value(last_vr, &items_of(&t["v"]), false))),
+            "OffsetTable" => out.push(DataToken::OffsetTable(
+                j_arr(&t["bot"])
+                    .iter()
+                    .map(|b| {
+                        let b = j_bytes(b);
+                        u32::from_be_bytes([b[0], b[1], b[2], b[3]])
+                    })
+                    .collect(),
+            )),
+            "ItemValue" => out.push(DataToken::ItemValue(j_bytes(&t["data"]))),
+            k => panic!("bad token kind {k}"),
+        }
+    }
+    out
+}
+
+fn run_tokens(a: &std::collections::HashMap<String, String>) {
+    let cases = read_ndjson(a.get("cases").expect("--cases"));
+    let out = a.get("out").expect("--out");
+    std::fs::create_dir_all(out).unwrap();
+    let mut w = NdjsonWriter::create(&format!("{out}/tstreams.ndjson"));
+    let mut rep = Report::new();
+    let mut kinds: std::collections::BTreeMap<String, u64> = Default::default();
+    let (mut equal, mut drift, mut drift_kept) = (0u64, 0u64, 0u64);
+    let mut drift_first = Value::Null;
+    let selftest = std::env::var("VERIF_SELFTEST").ok();
+    for c in &cases {
+        rep.cases += 1;
+        let ts = j_str(&c["ts"]);
+        let st = j_str(&c["strat"]);
+        for t in j_arr(&c["toks"]) {
+            *kinds.entry(j_str(&t["t"]).to_string()).or_insert(0) += 1;
+        }
+        let tokens = build_tokens(&c["toks"]);
+        let res = catch(|| {
+            let mut buf: Vec<u8> = Vec::new();
+            let o = DataSetWriterOptions::default().explicit_length_sq_item_strategy(if st == "U" {
+                ExplicitLengthSqItemStrategy::SetUndefined
+            } else {
+                ExplicitLengthSqItemStrategy::NoChange
+            });
+            let r = {
+                let mut wr = DataSetWriter::with_ts_options(&mut buf, ts_of(ts), o).map_err(|e| e.to_string())?;
+                wr.write_sequence(tokens).map_err(|e| format!("{e}: {e:?}"))
+            };
+            r.map(|_| buf)
+        });
+        match res {
+            Err(p) => rep.mismatch(json!({"prop": "C01", "fp": format!("{ts}: DataSetWriter panics on an object's token stream (strategy {st})"), "case": c, "error": p})),
+            Ok(Err(e)) => rep.mismatch(json!({"prop": "C01", "fp": format!("{ts}: DataSetWriter fails on an object's token stream (strategy {st})"), "case": c, "error": e})),
+            Ok(Ok(mut b)) => {
+                if selftest.as_deref() == Some("tok-delim") && st == "U" && b.len() > 30 {
+                    let n = b.len();
+                    b.truncate(n - 8);
+                }
+                if b == j_bytes(&c["out"]) {
+                    equal += 1;
+                } else {
+                    drift += 1;
+                    if c["kept"].as_bool().unwrap() {
+                        drift_kept += 1;
+                    }
+                    if drift_first.is_null() {
+                        drift_first = json!({"case": c, "got_bytes": bytes_json(&b)});
+                    }
+                    // property level: let TLC judge the stream
+                    w.emit(&json!({"ev": "stream", "src": format!("tokens/{st}"), "ts": ts, "st": st, "ds": c["ds"], "bytes": bytes_json(&b)}));
+                }
+            }
+        }
+    }
+    let ev = w.finish();
+    rep.extra.insert("equal".into(), json!(equal));
+    rep.extra.insert("drift".into(), json!(drift));
+    rep.extra.insert("drift_kept".into(), json!(drift_kept));
+    rep.extra.insert("drift_first".into(), drift_first);
+    rep.extra.insert("token_kinds".into(), json!(kinds));
+    rep.extra.insert("streams_logged".into(), json!(ev));
+    rep.extra.insert("streams_path".into(), json!(format!("{out}/tstreams.ndjson")));
+    rep.print();
+}
+
 fn main() {
     quiet_panics();
     let a = args_map();
@@ -1143,6 +1253,7 @@ fn main() {
         Some("random") => run_random(&a),
         Some("prims") => run_prims(&a),
         Some("files") => run_files(&a),
+        Some("tokens") => run_tokens(&a),
         _ => {
             eprintln!("usage: drv_dataset replay|random|prims|files ...");
             std::process::exit(2);
